@@ -30,6 +30,10 @@ class SuccessHistoryIntelligentOptimization(OptimizationAbstract):
     def set_config_parameters(self, parameters: dict[str, Any]):
         self._config = SuccessHistoryIntelligentOptimizationConfig(**parameters)
 
+    def before_initialization(self):
+        # the step coefficient decays during a run and restarts with every run
+        self.__a = 1.5
+
     def optimization_step(self):
         def evolve(solution: Solution) -> Solution:
             pos = np.array(solution.position)
